@@ -13,7 +13,7 @@ from ..astq import AstDB, walk, kids, strip, canon, where, if_parts, qt
 from ..engines import e2_state as e2
 from ..evalx import Interp, Unsupported
 from ..extract import AnalysisBroken
-from .c12 import OFFSET
+from .c12 import OFFSET, offset_table
 
 LEVEL = "other"
 
@@ -138,13 +138,14 @@ def run(chk):
     for cfg in cfgs:
         db = AstDB(cfg)
         eng = e2.E2(db, chk, cfg, ["ClipperOffset"])
-        e2.check_classification(eng, OFFSET, chk, "ClipperOffset")
+        OFF, why = offset_table(db)
+        e2.check_classification(eng, OFF, chk, "ClipperOffset")
         dg = db.one("ClipperOffset::DoGroupOffset")
         pl = e2.find_loops(dg, lambda l: "paths_in" in e2.loop_header_text(l))
         if len(pl) != 1:
             raise AnalysisBroken("path loop of DoGroupOffset not found")
         # the stale normals handed to a delta callback (D12) do not enter the geometry unless the callback uses them: C12 only
-        e2.rule_loop(eng, chk, cfg, dg, pl[0], OFFSET, worlds, "path loop of ClipperOffset::DoGroupOffset",
+        e2.rule_loop(eng, chk, cfg, dg, pl[0], OFF, worlds, "path loop of ClipperOffset::DoGroupOffset",
                      extra_allow={"norms": "only passed to the user's delta callback (reported under C12); the library's own geometry "
                                            "reads norms after BuildNormals"})
         ei = db.one("ClipperOffset::ExecuteInternal")
@@ -152,7 +153,7 @@ def run(chk):
             x.get("kind") == "MemberExpr" and x.get("name") == "DoGroupOffset" for x in walk(l)))
         if len(gl) != 1:
             raise AnalysisBroken("group loop of ExecuteInternal not found")
-        e2.rule_loop(eng, chk, cfg, ei, gl[0], OFFSET, worlds, "group loop of ClipperOffset::ExecuteInternal",
+        e2.rule_loop(eng, chk, cfg, ei, gl[0], OFF, worlds, "group loop of ClipperOffset::ExecuteInternal",
                      extra_allow={"norms": "only passed to the user's delta callback (reported under C12)"})
         _delta_symmetry(db, chk, cfg)
         _cap_tables(db, chk, cfg)
